@@ -493,12 +493,13 @@ theorem hsfz_eof_wakes (cfg : Hsfz.Cfg) (yields : Hsfz.Wire → Bool) (s : Hsfz.
     (Hsfz.execOp cfg yields s .eof).closed = s.closed := by
   simp [Hsfz.execOp, Hsfz.wake, hcl, Hsfz.Sys.finish]
 
-/-- … and a write waiting for its acknowledgement likewise, keeping the frames it had skipped -/
+/-- … and a write waiting for its acknowledgement likewise, keeping the frames it had skipped (`behind`: frames a read
+    re-appended after an earlier end of stream; empty when the stream ends for the first time) -/
 theorem hsfz_eof_wakes_ack_wait (cfg : Hsfz.Cfg) (yields : Hsfz.Wire → Bool) (s : Hsfz.Sys) (prev : Bytes)
     (sk : List Hsfz.Item) (a : Nat) (c : Option Nat) (hcl : s.client = .ackWait prev sk a c) :
     (Hsfz.execOp cfg yields s .eof).client = .idle ∧
     (Hsfz.execOp cfg yields s .eof).done = s.done ++ [(s.now, .peerClosed)] ∧
-    (Hsfz.execOp cfg yields s .eof).queue = sk ++ s.queue := by
+    (Hsfz.execOp cfg yields s .eof).queue = sk ++ s.queue ++ s.behind := by
   simp [Hsfz.execOp, Hsfz.wake, hcl, Hsfz.Sys.finish]
 
 /-- after the end of the stream no HSFZ operation is left blocked: a read or write issued then ends at once
